@@ -2,6 +2,7 @@
 //! No dependency on lexgen: everything here is an independent formulation of the documented
 //! behaviour.
 
+pub mod altparse;
 pub mod class;
 pub mod deriv;
 pub mod gen;
